@@ -658,13 +658,13 @@ static void csr_units_run(const Ctx& c) {
     bool clipped;
   };
   std::vector<Call> calls;
-  for (uint32_t alpha : {0u, 1u, 3u})
+  for (uint32_t alpha : {0u, 1u})
     calls.push_back(Call{alpha, 0, (uint32_t)c.r.n, false});
-  if (c.r.n <= 3) // clipped to every sub-range of the nodes
-    for (uint32_t alpha : {0u, 1u})
-      for (uint32_t b = 0; b <= c.r.n; ++b)
-        for (uint32_t e = b; e <= c.r.n; ++e)
-          calls.push_back(Call{alpha, b, e, true});
+  if (c.r.n <= 3) // clipped to every non-empty sub-range of the nodes
+    for (uint32_t b = 0; b < c.r.n; ++b)
+      for (uint32_t e = b + 1; e <= c.r.n; ++e)
+        if (!(b == 0 && e == c.r.n))
+          calls.push_back(Call{(b + e) % 2, b, e, true});
   auto ctx_of = [&](const Call& k) {
     return c.str() + " units=" + std::to_string(units) +
            " nodeAlpha=" + std::to_string(k.alpha) +
@@ -1737,6 +1737,8 @@ static sx::EnumCase small_case(const Layout& L) {
   c.run = [L](uint64_t idx, bool th) {
     rt();
     Decoded d = decode_cfg(L, idx);
+    static int onlyT = getenv("C11_ONLY_T") ? atoi(getenv("C11_ONLY_T")) : 0; // TEMP
+    if (onlyT && d.T != onlyT) return; // TEMP
     Ref r     = small_decode(d.gi, small_maxm(th));
     galois::setActiveThreads(d.T);
     Ctx ctx{r, d.T, ENAMES[d.E], th};
